@@ -32,6 +32,7 @@ def run(ctx):
     check_release(ctx, prog, tags)
     check_numeq(ctx, prog)
     check_streq(ctx, prog)
+    check_strrep(ctx, prog)
     # the element lifetime rules of Array, on the instantiations Var's containers use (Array<Var>, Array<char>, the Dic storage):
     # removing / inserting children must construct and destroy each child exactly once
     n_l = C01.check_lifetime(ctx, prog)
@@ -699,3 +700,204 @@ def check_streq(ctx, prog):
         ctx.undecided('C04.streq', f['pq'], role, fwhere(f), 'outside the interpreted fragment: %s' % und)
     else:
         ctx.check(bad is None, 'C04.streq', f['pq'], role, fwhere(f), 'interpreted for %d (text, text, representation, representation) combinations' % runs, 'Var::operator==: %s' % bad)
+
+
+def check_strrep(ctx, prog):
+    """C04.strrep: every member of Var that creates or rewrites the string representation leaves it well formed: the tag is
+    STRING or SSTRING, the tagged buffer holds exactly the characters of the assigned text followed by the terminating NUL every
+    accessor relies on (`toString()`, `length()`, `operator==` read `_s->data()` as a C string of `_s->length() - 1` characters).
+    Each writer - constructors from text, `Var(Type)`, `operator=` from text or from another Var, `copy()` - is interpreted
+    (scansim) with the heap buffer as an object of uninitialised bytes, for texts on both sides of the inline limit, every
+    previous state of the target and both representations of a Var argument."""
+    import scansim
+    en = dict((c['n'], c['v']) for c in prog.enums['asl::Var::Type']['consts'])
+    if 'STRING' not in en or 'SSTRING' not in en:
+        raise AnalysisBroken('Var::STRING / Var::SSTRING not found')
+    inline_cap = 0
+    for r_ in prog.records.values():
+        if r_['q'].startswith('asl::Var'):
+            for fld in r_.get('fields', []):
+                if fld['n'] == '_ss':
+                    inline_cap = max(inline_cap, T(r_, fld['t']).get('n') or 0)
+    if not inline_cap:
+        raise AnalysisBroken('inline buffer of Var not found')
+    texts = ['', 'a', 'abc', 'abcdef', 'abcdefg', 'abcdefgh', 'abcdefghi', 'abcdefghijklmnopqrstuvw']
+    texts = [t for t in texts] + ['x' * (inline_cap - 1), 'x' * inline_cap]
+    writers = []
+    for f in prog.functions:
+        if f.get('cls') != 'asl::Var' or not f.get('body'):
+            continue
+        hit = False
+        for e in fn_exprs(f):
+            if e.get('k') == 'call' and e.get('obj') is not None:
+                o = strip_lv(e['obj'])
+                while o.get('k') == 'call' and o.get('op') == '->' and o.get('obj') is not None:
+                    o = strip_lv(o['obj'])
+                if o.get('k') == 'mem' and o.get('f') == '_s' and scansim._on_this(o) and (e.get('pq') or '').split('::')[-1] in ('construct', 'resize'):
+                    hit = True
+        if hit:
+            writers.append(f)
+    # members that write it through a helper of Var (operator=(const char*) -> setChars(p, n)) are writers too
+    direct = set(f['id'] for f in writers)
+
+    def var_callees(g_):
+        out = []
+        for e in fn_exprs(g_):
+            if e.get('k') == 'call' and (e.get('fn') or '').startswith('asl::Var::'):
+                out += [h_ for h_ in prog.fn(e.get('fn'), e.get('sig')) if h_.get('body')]
+        return out
+    changed = True
+    via = set(direct)
+    while changed:
+        changed = False
+        for f in prog.functions:
+            if f.get('cls') == 'asl::Var' and f.get('body') and f['id'] not in via and any(h_['id'] in via for h_ in var_callees(f)):
+                via.add(f['id'])
+                changed = True
+    for f in prog.functions:
+        if f['id'] in via and f['id'] not in direct and len(f['params']) == 1 and (T(f, f['params'][0]['t']).get('s') or '') in ('const char *', 'const asl::String &'):
+            writers.append(f)
+    n_dec = 0
+    helpers, driven = [], []
+    for f in writers:
+        ctx.analysed(f)
+        role = '%s%s:string representation written' % (f['n'], f['sig'])
+        kinds = []
+        for p_ in f['params']:
+            kinds.append(prog_type_text(f, p_['t']))
+        is_ctor = f['n'] == 'Var'
+        # the previous states of the target (constructors start from raw storage)
+        prevs = [None] if is_ctor else [('NONE', ''), ('SSTRING', 'old'), ('STRING', 'previouslyheldtext')]
+        if f['n'] == 'copy':
+            prevs = ['tagged']          # copy(v) runs after the tag was taken from v
+        cases = []
+        if len(kinds) == 1 and kinds[0] in ('const char *',):
+            cases = [('cstr', t) for t in texts]
+        elif len(kinds) == 1 and kinds[0] in ('const asl::String &', 'asl::String'):
+            cases = [('string', t) for t in texts]
+        elif len(kinds) == 1 and kinds[0] in ('const asl::Var &',):
+            cases = [('var', t, rep) for t in texts for rep in ('SSTRING', 'STRING') if not (rep == 'SSTRING' and len(t) >= inline_cap)]
+        elif len(kinds) == 1 and kinds[0] in ('asl::Var::Type',):
+            cases = [('type', '', rep) for rep in ('SSTRING', 'STRING')]
+        else:
+            helpers.append((f, role, kinds))
+            continue
+        driven.append(f)
+        bad = und = None
+        runs = 0
+        skipped = []
+        for case in cases:
+            for prev in prevs:
+                bufs = {('SS', 'L'): [scansim.UNINIT] * inline_cap}
+                mems = {'_ss': ('P', ('SS', 'L'), 0)}
+                if prev == 'tagged':
+                    # copy(v) completes a bitwise copy of v: tag, inline bytes and (shared) heap handle are already v's
+                    mems['_type'] = en[case[2]]
+                    if case[2] == 'SSTRING':
+                        ch_ = [ord(c) for c in case[1]] + [0]
+                        bufs[('SS', 'L')] = ch_ + [scansim.UNINIT] * (inline_cap - len(ch_))
+                    else:
+                        mems['_s'] = ('P', ('O', 'heapR'), 0)
+                elif prev is not None:
+                    mems['_type'] = en.get(prev[0], 0)
+                    chars = [ord(c) for c in prev[1]] + [0]
+                    if prev[0] == 'SSTRING':
+                        bufs[('SS', 'L')] = chars + [scansim.UNINIT] * (inline_cap - len(chars))
+                    elif prev[0] == 'STRING':
+                        bufs[('O', 'm:_s')] = chars
+                        mems['_s'] = ('P', ('O', 'm:_s'), 0)
+                r = scansim.Run(prog, f, bufs, mems=mems, methods={'*': 'interp'}, objects=True)
+                if prev is not None and prev != 'tagged' and prev[0] == 'STRING':
+                    r.objlen['m:_s'] = len(prev[1]) + 1
+                pid = f['params'][0]['id']
+                text = case[1]
+                chars = [ord(c) for c in text] + [0]
+                if case[0] == 'cstr':
+                    bufs['T'] = chars
+                    r.vars[pid] = ('P', 'T', 0)
+                elif case[0] == 'string':
+                    bufs[('O', pid)] = chars
+                    r.objlen[pid] = len(text)
+                    r.strobjs.add(pid)
+                elif case[0] == 'type':
+                    r.vars[pid] = en[case[2]]
+                else:
+                    rec = {'_type': en[case[2]]}
+                    if case[2] == 'SSTRING':
+                        bufs[('SS', 'R')] = chars + [scansim.UNINIT] * (inline_cap - len(chars))
+                        rec['_ss'] = ('P', ('SS', 'R'), 0)
+                    else:
+                        bufs[('O', 'heapR')] = list(chars)
+                        rec['_s'] = ('P', ('O', 'heapR'), 0)
+                        r.objlen['heapR'] = len(chars)
+                    r.recs['other'] = rec
+                    r.vars[pid] = ('R', 'other')
+                runs += 1
+                desc = '%s%s with %s"%s"%s' % (f['n'], f['sig'], (case[2] + ' ') if len(case) > 2 else '', text, '' if prev in (None, 'tagged') else ' assigned to a Var holding %s' % (prev[0] if prev[0] == 'NONE' else '%s "%s"' % prev))
+                try:
+                    r.run()
+                except scansim.OOB as o:
+                    bad = '%s: %s' % (desc, o)
+                    break
+                except (scansim.Unsupported, TypeError, KeyError, AttributeError) as u:
+                    # a combination that runs through code outside the interpreted fragment (a temporary Var, a container
+                    # branch) is left out; the writer is decided on the combinations that could be interpreted
+                    skipped.append('%s: %s' % (desc, u))
+                    continue
+                tag = mems.get('_type')
+                if tag == en['STRING']:
+                    pv = mems.get('_s')
+                    got = bufs.get(pv[1]) if isinstance(pv, tuple) and pv[0] == 'P' and pv[2] == 0 else None
+                    if got is None:
+                        bad = '%s: tagged STRING but no heap buffer was constructed' % desc
+                    elif got != chars:
+                        bad = '%s: the heap buffer holds %s, not the %d characters and their terminating NUL (accessors read it as a C string of length()-1 characters)' % (desc, show_bytes(got), len(text))
+                elif tag == en['SSTRING']:
+                    got = bufs[('SS', 'L')][:len(chars)]
+                    if len(chars) > inline_cap or got != chars:
+                        bad = '%s: the inline buffer holds %s, not the text and its terminating NUL' % (desc, show_bytes(bufs[('SS', 'L')]))
+                else:
+                    bad = '%s: the target is left with tag %s, not a string' % (desc, tag)
+                if bad:
+                    break
+            if bad or und:
+                break
+        ctx.evaluations += runs
+        done = runs - len(skipped)
+        if bad is None and done == 0:
+            ctx.undecided('C04.strrep', f['pq'], role, fwhere(f), 'outside the interpreted fragment: %s' % (skipped[0] if skipped else 'no combination'))
+        else:
+            n_dec += 1
+            ctx.check(bad is None, 'C04.strrep', f['pq'], role, fwhere(f), 'interpreted for %d of %d (text, representation, previous state) combinations%s: tag, buffer length, characters and terminator as the accessors expect' % (
+                done, runs, (' (the others run through a temporary Var or a container branch, e.g. %s)' % skipped[0][:120]) if skipped else ''), bad or '')
+    # a writer that cannot be driven from outside (a helper taking a pointer and a length, say) is interpreted as part of the
+    # writers that call it; one that no driven writer reaches stays undecided
+    reach = set()
+    work = list(driven)
+    while work:
+        g_ = work.pop()
+        if g_['id'] in reach:
+            continue
+        reach.add(g_['id'])
+        for e in fn_exprs(g_):
+            if e.get('k') == 'call' and (e.get('cls') == 'asl::Var' or (e.get('fn') or '').startswith('asl::Var::')):
+                for h_ in prog.fn(e.get('fn'), e.get('sig')):
+                    if h_.get('body') and h_['id'] not in reach:
+                        work.append(h_)
+    for f, role, kinds in helpers:
+        if f['id'] in reach:
+            ctx.ok('C04.strrep', f['pq'], role, fwhere(f), 'helper with parameters (%s): interpreted as part of the writers that call it' % ', '.join(kinds))
+        else:
+            ctx.undecided('C04.strrep', f['pq'], role, fwhere(f), 'writer with parameters (%s) is not driven and no driven writer calls it' % ', '.join(kinds))
+    ctx.floor('C04.strrep writers of the string representation', len(driven), 4)
+
+
+def show_bytes(b):
+    out = []
+    for x in b[:12]:
+        out.append('?' if not isinstance(x, int) else ('\\0' if x == 0 else chr(x & 255) if 32 <= (x & 255) < 127 else '\\x%02x' % (x & 255)))
+    return '[%s%s] (%d bytes)' % (''.join(out), '...' if len(b) > 12 else '', len(b))
+
+
+def prog_type_text(f, t):
+    return T(f, t).get('s') or ''
